@@ -259,4 +259,57 @@ def rSeekTS (P : Params) (fs : List File) (tsOf : Bytes → Int) (r : RState) (t
     RState × Except Err Unit :=
   rSeekLoop P fs tsOf target fs.length r
 
+/-! ### Operations of a block (what the harness drives) -/
+
+inductive Op
+  | start | next (n : Nat) | seek (ts : Int)
+  | fstart (k : Nat) | fnext (k n : Nat) | fseek (k : Nat) (ts : Int)
+deriving Repr, DecidableEq
+
+/-- `n` successive `qLogFile.ReadNext` calls, stopping at the first error; the
+lines `(lineIdx, stop)` in the order returned. -/
+def fReadMany (P : Params) (f : File) :
+    Nat → QState → List (Nat × Nat) → QState × List (Nat × Nat) × Option Err
+  | 0, q, acc => (q, acc.reverse, none)
+  | n + 1, q, acc =>
+    match readNext P f q with
+    | (q', .ok r) => fReadMany P f n q' (r :: acc)
+    | (q', .error e) => (q', acc.reverse, some e)
+
+/-- `n` successive `qLogReader.ReadNext` calls; lines `(file, lineIdx, stop)`. -/
+def rReadMany (P : Params) (fs : List File) :
+    Nat → RState → List (Nat × Nat × Nat) → RState × List (Nat × Nat × Nat) × Option Err
+  | 0, r, acc => (r, acc.reverse, none)
+  | n + 1, r, acc =>
+    match rReadNext P fs r with
+    | (r', .ok x) => rReadMany P fs n r' (x :: acc)
+    | (r', .error e) => (r', acc.reverse, some e)
+
+/-- Result of one operation of the model. -/
+inductive Out
+  | start (pos : Option Nat)                                   -- file level: the new position
+  | next (lines : List (Nat × Nat × Nat)) (endc : Option Err)  -- `(file, lineIdx, stop)`
+  | seek (res : Except Err (Option (Nat × Nat)))               -- file level: `(pos, depth)`
+deriving Repr
+
+def modelStep (P : Params) (fs : List File) (tsOf : Bytes → Int) (r : RState) : Op → RState × Out
+  | .start => (rSeekStart fs r, .start none)
+  | .next n =>
+    match rReadMany P fs n r [] with
+    | (r', ls, e) => (r', .next ls e)
+  | .seek ts =>
+    match rSeekTS P fs tsOf r ts with
+    | (r', .ok _) => (r', .seek (.ok none))
+    | (r', .error e) => (r', .seek (.error e))
+  | .fstart k =>
+    let q := seekStart (fs.getD k noFile) (r.files.getD k {})
+    ({ r with files := r.files.set k q }, .start (some q.position))
+  | .fnext k n =>
+    match fReadMany P (fs.getD k noFile) n (r.files.getD k {}) [] with
+    | (q, ls, e) => ({ r with files := r.files.set k q }, .next (ls.map (fun x => (k, x.1, x.2))) e)
+  | .fseek k ts =>
+    match seekTS P (fs.getD k noFile) tsOf (r.files.getD k {}) ts with
+    | (q, .ok pd) => ({ r with files := r.files.set k q }, .seek (.ok (some pd)))
+    | (q, .error e) => ({ r with files := r.files.set k q }, .seek (.error e))
+
 end AGH.C20
